@@ -162,6 +162,16 @@ inline void arena_init()
     sigaction(SIGVTALRM, &st, nullptr);
 }
 
+// Every plan starts from the same readable window: what an earlier plan of the same worker left
+// below the frame must not be visible to a wild *read* of the code under test (a read below p is
+// not a reportable outcome by itself, but the value it returns steers what happens next, and a
+// plan has to be a pure function of its text).
+inline void arena_reset()
+{
+    auto& a = arena();
+    std::memset(a.rw_begin, 0x5A, kRw);
+}
+
 // Place a frame of n bytes followed by `slack` accessible bytes; the byte
 // after p+n+slack is protected. kCanary bytes before p are canaries.
 inline unsigned char* arena_place(std::size_t n, std::size_t slack = 0)
